@@ -31,9 +31,15 @@ func describeValS(v ssa.Value, d int, seenPhi map[ssa.Value]bool) string {
 		}
 		return x.Value.String()
 	case *ssa.Parameter:
-		return x.Name()
+		// by position and type, not by name: renaming a parameter changes nothing
+		for i, p := range x.Parent().Params {
+			if p == x {
+				return fmt.Sprintf("param%d:%s", i, shortType(x.Type()))
+			}
+		}
+		return "param:" + shortType(x.Type())
 	case *ssa.FreeVar:
-		return x.Name()
+		return "captured:" + shortType(x.Type())
 	case *ssa.Global:
 		return x.Name()
 	case *ssa.UnOp:
@@ -112,9 +118,13 @@ func describeValS(v ssa.Value, d int, seenPhi map[ssa.Value]bool) string {
 		}
 		return "φ(" + strings.Join(parts, "|") + ")"
 	case *ssa.Alloc:
-		return "&" + x.Comment
+		return "&local:" + shortType(x.Type())
 	}
 	return "?"
+}
+
+func shortType(t types.Type) string {
+	return types.TypeString(t, func(p *types.Package) string { return p.Name() })
 }
 
 // normCond: a comparison reduced to the cut it makes: polarity and operand order are normalised away, so that
@@ -148,14 +158,13 @@ func (c *Ctx) condSigs(pkgs []string) map[string][]string {
 				continue
 			}
 			fk := ir.FuncKey(fn)
+			// every comparison the function computes, whether it steers a branch or is stored / passed on as a flag
 			for _, b := range fn.Blocks {
-				iff, ok := b.Instrs[len(b.Instrs)-1].(*ssa.If)
-				if !ok {
-					continue
-				}
-				if bo, ok := iff.Cond.(*ssa.BinOp); ok {
-					if s := normCond(bo); s != "" {
-						out[fk] = append(out[fk], s)
+				for _, in := range b.Instrs {
+					if bo, ok := in.(*ssa.BinOp); ok {
+						if s := normCond(bo); s != "" {
+							out[fk] = append(out[fk], s)
+						}
 					}
 				}
 			}
@@ -168,7 +177,7 @@ func (c *Ctx) condSigs(pkgs []string) map[string][]string {
 // ruleConditionRatchet: no branch comparison changed its operands or its boundary.
 func (c *Ctx) ruleConditionRatchet(rule string, pkgs []string, fileFilter func(string) bool, baselineFile string, min int) {
 	r := c.R
-	r.Rule(rule, "condition ratchet: the committed baseline records, per function, the multiset of branch comparisons, each described by where its operands come from (parameters, field paths, constants, callee names) and normalised so that polarity and operand order do not matter (a==b ≡ a!=b, a<b ≡ a>=b ≡ b>a) but the boundary does (a<b ≠ a<=b). A function with the same number of comparisons of which some now compare something else — another variable or field, another constant, an off-by-one boundary — has had a condition changed. Functions whose number of comparisons changed are not decided", min)
+	r.Rule(rule, "condition ratchet: the committed baseline records, per function, the multiset of comparisons it computes (branch conditions and comparison results stored or passed on as flags), each described by where its operands come from (parameters, field paths, constants, callee names) and normalised so that polarity and operand order do not matter (a==b ≡ a!=b, a<b ≡ a>=b ≡ b>a) but the boundary does (a<b ≠ a<=b). A function with the same number of comparisons of which some now compare something else — another variable or field, another constant, an off-by-one boundary — has had a condition changed. Functions whose number of comparisons changed are not decided", min)
 	var base map[string][]string
 	b, err := os.ReadFile(filepath.Join(homeDir(), baselineFile))
 	if err != nil || json.Unmarshal(b, &base) != nil {
